@@ -332,12 +332,16 @@ def g_leaf_targets(R, tier):
                  [("ev", "nsp", "obj"), ("ev", "S", "V"), ("setattr", ("val", "obj"), ("const", ("str", ("id", "a"))), ("val", "V"))], "obj.a = V")
 
     # ---- subscript with a plain index and with a slice
-    for shape in ("index", "slice"):
+    for shape in ("index", "slice", "tuple-with-slices"):
         def run_sub(c):
             m = Machine(stubs=stubs())
             self_ = CL.mk_pending(pn.PendingAssign, Opaque("stmt", ast.Assign), CL.mk_nsp(), CL.mk_global(), m=m)
             if shape == "index":
-                sl = CL.src("idx", ast.expr, exclude=[ast.Slice])
+                sl = CL.src("idx", ast.expr, exclude=[ast.Slice, ast.Tuple])  # (a tuple index: next shape)
+            elif shape == "tuple-with-slices":  # obj[a.., lo::st .., b..] = V
+                plain = lambda t: CL.src(t, ast.expr, exclude=[ast.Slice, ast.Starred])
+                sl = ast.Tuple(elts=[CL.seg("IA", plain), CL.seg("SL", lambda t: ast.Slice(lower=CL.src((t, "lo")), upper=None, step=CL.src((t, "st")))),
+                                     CL.seg("IB", plain)], ctx=ast.Load())
             else:
                 sl = ast.Slice(lower=CL.src("lo"), upper=None, step=CL.src("st"))
             t = ast.Subscript(value=CL.src("obj"), slice=sl, ctx=ast.Store())
@@ -345,6 +349,15 @@ def g_leaf_targets(R, tier):
             return dict(res=m.call_value(pn.PendingAssign.assign_subscript, self_, t, V))
         if shape == "index":
             want = [("ev", "nsp", "obj"), ("ev", "nsp", "idx"), ("ev", "S", "V"), ("setitem", ("val", "obj"), ("val", "idx"), ("val", "V"))]
+        elif shape == "tuple-with-slices":
+            nA, jA, nB, jB, nS, jS = z3.Int("n_IA"), z3.Int("j_IA"), z3.Int("n_IB"), z3.Int("j_IB"), z3.Int("n_SL"), z3.Int("j_SL")
+            from olvc.sym import SInt as _SInt
+            want = [("ev", "nsp", "obj"), ("rep", _SInt(nA), jA, False, [("ev", "nsp", "(IA j_IA)")]),
+                    ("rep", _SInt(nS), jS, False, [("ev", "nsp", "((SL j_SL) lo)"), ("ev", "nsp", "((SL j_SL) st)")]),
+                    ("rep", _SInt(nB), jB, False, [("ev", "nsp", "(IB j_IB)")]), ("ev", "S", "V"),
+                    ("setitem", ("val", "obj"), ("tupledisp", (("segvals", _SInt(nA), jA, False, (("val", "(IA j_IA)"),)),
+                                                               ("segvals", _SInt(nS), jS, False, (("slice", ("val", "((SL j_SL) lo)"), ("const", None), ("val", "((SL j_SL) st)")),)),
+                                                               ("segvals", _SInt(nB), jB, False, (("val", "(IB j_IB)"),)))), ("val", "V"))]
         else:
             want = [("ev", "nsp", "obj"), ("ev", "nsp", "lo"), ("ev", "nsp", "st"), ("ev", "S", "V"),
                     ("setitem", ("val", "obj"), ("slice", ("val", "lo"), ("const", None), ("val", "st")), ("val", "V"))]
@@ -465,7 +478,7 @@ def g_augassign(R, tier):
     pn = CL.pn()
     base = "pending_nodes.PendingAugAssign.get_result"
     for opcls, iop in pysem.INPLACE_NAME.items():
-        for kind in ("name", "attribute", "subscript", "slice"):
+        for kind in ("name", "attribute", "subscript", "slice", "tuple-index"):
             def run(c):
                 m = Machine(stubs=stubs())
                 nsp = CL.mk_nsp()
@@ -474,7 +487,10 @@ def g_augassign(R, tier):
                 elif kind == "attribute":
                     t = ast.Attribute(value=CL.src("obj"), attr=Hole("a", "ident"), ctx=ast.Store())
                 elif kind == "subscript":
-                    t = ast.Subscript(value=CL.src("obj"), slice=CL.src("idx", ast.expr, exclude=[ast.Slice]), ctx=ast.Store())
+                    t = ast.Subscript(value=CL.src("obj"), slice=CL.src("idx", ast.expr, exclude=[ast.Slice, ast.Tuple]), ctx=ast.Store())
+                elif kind == "tuple-index":  # obj[lo::st, idx] op= V
+                    t = ast.Subscript(value=CL.src("obj"), slice=ast.Tuple(elts=[ast.Slice(lower=CL.src("lo"), upper=None, step=CL.src("st")),
+                                                                                 CL.src("idx", ast.expr, exclude=[ast.Slice, ast.Starred])], ctx=ast.Load()), ctx=ast.Store())
                 else:
                     opt = lambda tag: None if c.branch(z3.Bool(f"{tag}.is_none")) else CL.src(tag)
                     t = ast.Subscript(value=CL.src("obj"), slice=ast.Slice(lower=opt("lo"), upper=opt("up"), step=opt("st")), ctx=ast.Store())
@@ -543,7 +559,7 @@ def check_aug(R, nm, sig, p, kind, opcls, iop):
                 out.append(e[3])
             if kind == "attribute" and e[0] == "setattr" and e[2] == ("const", ("str", ("id", "a"))):
                 out.append(e[3])
-            if kind in ("subscript", "slice") and e[0] == "setitem":
+            if kind in ("subscript", "slice", "tuple-index") and e[0] == "setitem":
                 out.append(e[3])
         return out
     cond_val = ("ifexp", ch[1], res_then, res_else)
@@ -554,7 +570,7 @@ def check_aug(R, nm, sig, p, kind, opcls, iop):
                 f"stores of the target on the {arm} arm: {st!r}; expected exactly one store of {result!r}",
                 replay=dict(kind="src", src="class A:\n    def __init__(self, v):\n        self.v = v\n    def __iadd__(self, o):\n        return A(self.v + o)\nx = A(1)\ny = x\nx += 1\nr = (x.v, y.v, x is y)\n", expect="same-globals"))
     # target object / index expressions evaluated exactly once (Language Reference 7.2.1)
-    for atom in {"name": [], "attribute": ["obj"], "subscript": ["obj", "idx"], "slice": ["obj", "lo", "up", "st"]}[kind]:
+    for atom in {"name": [], "attribute": ["obj"], "subscript": ["obj", "idx"], "slice": ["obj", "lo", "up", "st"], "tuple-index": ["obj", "lo", "st", "idx"]}[kind]:
         n = sum(1 for e in flat if e[:3] == ("ev", "nsp", atom))
         absent, _ = c.valid(z3.Bool(f"{atom}.is_none")) if atom in ("lo", "up", "st") else (False, None)
         if atom in ev.pure:
